@@ -468,7 +468,7 @@ func (e *FnExec) execInstr(st *State, ins ssa.Instruction) {
 	case *ssa.MakeSlice:
 		ln, cp := e.term(st, x.Len), e.term(st, x.Cap)
 		// the runtime panics ("len out of range") beyond maxAlloc = 2^48 bytes
-		e.assert(st, "make", And(Le(IntLit(0), ln), Le(ln, cp), Le(cp, BigLit(pow2(47)))), x.Pos(), "make: 0 <= len <= cap <= 2^47", "")
+		e.assert(st, "make", And(Le(IntLit(0), ln), Le(ln, cp), Le(cp, BigLit(pow2(48)))), x.Pos(), "make: 0 <= len <= cap <= 2^48", "")
 		arr := e.alloc(st)
 		et := x.Type().Underlying().(*types.Slice).Elem()
 		e.zeroElems(st, arr, et)
